@@ -1,15 +1,17 @@
 import XsVerif.Props.C08
 open XsVerif.Props.C08
 #print axioms key_scope_iff
-#print axioms unique_scope_iff_partial
-#print axioms unique_counterexample
+#print axioms unique_scope_iff
+#print axioms unique_partial_witness
 #print axioms keyref_scope_iff
 #print axioms keyrefErrs_nil_iff
 #print axioms key_table
 #print axioms scope_block_iff
+#print axioms keyref_block_iff
+#print axioms keyref_absent_refer_iff
+#print axioms absent_refer_witness
 #print axioms nested_counterexample
 #print axioms spread_counterexample
-#print axioms crash_counterexample
 #print axioms rowsClauses_unique_nil
 #print axioms rowsClauses_key_nil
 #print axioms rowsClauses_keyref_nil
